@@ -110,7 +110,7 @@ pub fn run(ctx: &Ctx) -> Result<(), String> {
     ctx.set_level("fault_enumeration");
     let evals = AtomicU64::new(0);
     let faults_n = AtomicU64::new(0);
-    let wlens: Vec<usize> = ctx.tier.pick(vec![16, 31, 32, 33, 47, 48, 64, 113, 184, 1024], (16..=1024).collect());
+    let wlens: Vec<usize> = ctx.tier.pick((16..=64).chain([113, 184, 255, 256, 257, 512, 1024]).collect(), (16..=1024).collect());
     let plens: Vec<usize> = (32..=64).collect();
 
     // 1. round trip for every wrapped length x every plaintext length; leak scan
@@ -159,8 +159,8 @@ pub fn run(ctx: &Ctx) -> Result<(), String> {
     });
 
     // 2. faults on the blob: every bit flip, byte set 00/ff, every truncation, extension 1..=16, swapped length fields
-    let fw: Vec<usize> = ctx.tier.pick(vec![16, 32, 48, 113], vec![16, 31, 32, 33, 48, 64, 113, 184, 1024]);
-    let fp: Vec<usize> = ctx.tier.pick(vec![32, 33, 64], vec![32, 33, 47, 48, 64]);
+    let fw: Vec<usize> = ctx.tier.pick(vec![16, 31, 32, 33, 47, 48, 64, 113, 184], vec![16, 17, 31, 32, 33, 47, 48, 49, 64, 113, 184, 256, 512, 1024]);
+    let fp: Vec<usize> = ctx.tier.pick(vec![32, 33, 48, 64], (32..=64).collect());
     let mut fc = vec![];
     for &w in &fw {
         for &p in &fp {
